@@ -686,3 +686,85 @@ def conj_possible(conj, decide):
         if not (chosen & set(g['vals'])):
             return False
     return True
+
+
+def expand_bool(c, tv, open_var=None):
+    """alternatives under which boolean expression c has truth value tv; each alternative is a list of (atom, truth).
+    Looks through `!`, and through the short-circuit temps the compiler builds for `a && b` / `a || b` / `matches!`.
+    open_var(var node) -> bool: also look into a named merge value (a `let ok = a && b;` that got a name)."""
+    if not isinstance(c, tuple) or not c:
+        return [[(c, tv)]]
+    if c[0] == 'var' and open_var is not None and open_var(c):
+        from ..expr import expand_var
+        d = norm(expand_var(c))
+        if d != c:
+            return expand_bool(d, tv, open_var)
+    if c[0] == 'int':
+        return [[]] if bool(c[1]) == tv else []
+    if c[0] == 'un' and c[1] == 'Not':
+        return expand_bool(c[2], not tv, open_var)
+    if c[0] == 'ite' and all(v in (0, 1, 'otherwise') for v, _ in c[2]) and \
+            all(isinstance(x, tuple) and x and (x[0] in ('int', 'ite', 'un', 'call', 'bin', 'bbeq', 'bbne')) for _, x in c[2]):
+        out = []
+        for v, sub in c[2]:
+            for alt_s in expand_bool(sub, tv, open_var):
+                for alt_c in expand_bool(c[1], v != 0, open_var):
+                    out.append(alt_c + alt_s)
+        return out
+    return [[(c, tv)]]
+
+
+def expand_conj(conj, open_var=None):
+    """a disjunct of dnf() with every boolean-temp literal expanded: list of alternative guard lists (pseudo guards
+    carry cond / truth / vals / all / blk / line like real ones)"""
+    alts = [[]]
+    for g in conj:
+        if g['cond'] is None or g['truth'] is None:
+            alts = [a + [g] for a in alts]
+            continue
+        ex = expand_bool(norm(g['cond']), g['truth'], open_var)
+        new = []
+        for a in alts:
+            for e in ex:
+                new.append(a + [dict(g, cond=atom, truth=tv, vals=(['otherwise'] if tv else [0]), all=[0, 'otherwise']) for atom, tv in e])
+        alts = new
+    return alts
+
+
+def push_proj(e):
+    """distribute field / variant projections over decisions: (ite(c; a, b) as Some).0 -> ite(c; (a as Some).0, ..), and
+    resolve them on aggregate leaves; a projection of the wrong variant becomes `never`"""
+    from ..expr import expand_var
+    if not isinstance(e, tuple) or not e:
+        return e
+    if e[0] == 'field' and isinstance(e[1], tuple) and e[1]:
+        inner = push_proj(e[1])
+        if inner[0] == 'var':
+            inner = push_proj(norm(expand_var(inner)))
+        if inner[0] == 'ite':
+            return ('ite', inner[1], tuple((v, push_proj(('field', x, e[2]))) for v, x in inner[2]))
+        if inner[0] == 'never':
+            return inner
+        if inner[0] == 'variant' and isinstance(inner[1], tuple) and inner[1] and inner[1][0] == 'agg':
+            if inner[1][2] != inner[2]:
+                return ('never',)
+            for n_, x in inner[1][3]:
+                if n_ == e[2]:
+                    return x
+        if inner[0] == 'agg':
+            for n_, x in inner[3]:
+                if n_ == e[2]:
+                    return x
+        return ('field', inner, e[2])
+    if e[0] == 'variant' and isinstance(e[1], tuple) and e[1]:
+        inner = push_proj(e[1])
+        if inner[0] == 'var':
+            inner = push_proj(norm(expand_var(inner)))
+        if inner[0] == 'ite':
+            return ('ite', inner[1], tuple((v, push_proj(('variant', x, e[2]))) for v, x in inner[2]))
+        if inner[0] == 'agg' and inner[2] != e[2]:
+            return ('never',)
+        if inner[0] == 'enum' and inner[2] != e[2]:
+            return ('never',)
+        return ('variant', inner, e[2])
+    return e
